@@ -703,6 +703,16 @@ func BlockState(g string) (state string, frames []string) {
 // ReadlineStack returns the Readline goroutine's part of a dump.
 func ReadlineStack(dump string) string { return readlineGoroutine(dump) }
 
+// LastDelivered returns the bytes of the most recently delivered plan step ("" if none).
+func (s *Session) LastDelivered() string {
+	s.mu.Lock()
+	defer s.mu.Unlock()
+	if i := s.next - 1; i >= 0 && i < len(s.plan) {
+		return s.plan[i].W
+	}
+	return ""
+}
+
 // StepsTaken is the number of delivery steps taken so far in the current call.
 func (s *Session) StepsTaken() int {
 	s.mu.Lock()
